@@ -161,6 +161,34 @@ TokenOK(t) ==
   /\ (t.s = "||" => t.type = "eLogicalOp")
   /\ (t.s \in {"=", "+=", "-=", "*=", "/=", "%=", "&=", "|=", "^=", "<<=", ">>="} => t.isAssignmentOp)
 
+(* For the fixed spellings of the language (keywords, operators, brackets)   *)
+(* the type is normally a function of the spelling (Token::update_property_ *)
+(* info; "<" ">" are brackets when linked, "[" "]" start/end a lambda).  The *)
+(* real Tokenizer also produces IRREGULAR tokens: "void" retyped to eName by *)
+(* the symbol database, a C++ identifier spelled like a C keyword           *)
+(* ("restrict"), a C variable called "true".  Matching is defined for them   *)
+(* like for any token; the judge uses Regular only to name the shape of a    *)
+(* difference, never to excuse one.                                          *)
+KeywordSpellings == {"asm", "auto", "break", "case", "const", "continue", "default", "do", "else", "enum", "extern", "for",
+                     "goto", "if", "inline", "register", "restrict", "return", "sizeof", "static", "struct", "switch",
+                     "typedef", "union", "volatile", "while", "void"}
+RegularTypes(s) ==
+  IF s \in KeywordSpellings THEN {"eKeyword"} \cup (IF s \in {"auto", "void"} THEN {"eType"} ELSE {})
+  ELSE IF s \in {"true", "false"} THEN {"eBoolean"}
+  ELSE IF s \in {"+", "-", "*", "/", "%", ">>", "<<"} THEN {"eArithmeticalOp"}
+  ELSE IF s \in {"=", "+=", "-=", "*=", "/=", "%=", "&=", "|=", "^=", "<<=", ">>="} THEN {"eAssignmentOp"}
+  ELSE IF s \in {"&", "|", "^", "~"} THEN {"eBitOp"}
+  ELSE IF s \in {"&&", "||", "!"} THEN {"eLogicalOp"}
+  ELSE IF s \in {"==", "!=", "<=", ">=", "<=>"} THEN {"eComparisonOp"}
+  ELSE IF s \in {"<", ">"} THEN {"eComparisonOp", "eBracket"}
+  ELSE IF s \in {"{", "}"} THEN {"eBracket"}
+  ELSE IF s \in {"[", "]"} THEN {"eExtendedOp", "eLambda"}
+  ELSE IF s \in {",", "?", ":", "(", ")"} THEN {"eExtendedOp"}
+  ELSE IF s \in {"++", "--"} THEN {"eIncDecOp"}
+  ELSE IF s = "..." THEN {"eEllipsis"}
+  ELSE {}                                   \* no fixed spelling: nothing to say
+Regular(t) == RegularTypes(t.s) = {} \/ t.type \in RegularTypes(t.s)
+
 -----------------------------------------------------------------------------
 (* Matching.                                                                *)
 
